@@ -473,6 +473,7 @@ def rule_footnote_wrap(ctx, rid):
     srcs = {"measured": {src_of(t["args"][0]) for t in ws}, "split": {src_of(t["args"][0]) for t in cs},
             "unsplit": {src_of(t["args"][0]) for t in os_}}
     allsrc = set().union(*srcs.values())
+    rule_footnote_text_cleaned(ctx, rid)
     ctx.check(len(ws) == 1 and len(cs) == 1 and len(allsrc) == 1 and None not in allsrc, rid, "fmt_links:measured-string=emitted-string",
               b.span, b.id, "the fit test measures %s, the splitting loop walks %s, the unsplit push copies %s"
               % (sorted(map(str, srcs["measured"])), sorted(map(str, srcs["split"])), sorted(map(str, srcs["unsplit"]))))
@@ -636,3 +637,47 @@ def rule_estimate_merge(ctx, rid):
         forms[0].get(f) in ("cmp::max(self.%s, arg2.%s)" % (f, f), "cmp::max(arg2.%s, self.%s)" % (f, f),
                             "Ord::max(self.%s, arg2.%s)" % (f, f), "Ord::max(arg2.%s, self.%s)" % (f, f)) for f in ("size", "min_width"))
     ctx.check(okc, rid, "SizeEstimate::max:component-wise", m.span, m.id, str(forms))
+
+
+def rule_footnote_text_cleaned(ctx, rid):
+    """Every piece of text that fmt_links emits comes from the cleaned link string (line feeds replaced), on the
+    wrapping and on the non-wrapping path alike: each TaggedString built in fmt_links takes its `s` from a value
+    derived from the result of `replace`."""
+    F = ctx.facts
+    b = F.one("SubRenderer::<D>::fmt_links")
+    n = 0
+    for x in sorted(b.reachable()):
+        for st in b.stmts(x):
+            rv = st.get("rv") or {}
+            if rv.get("agg") == "adt" and ends(rv.get("adt"), "TaggedString") and "s" in rv.get("fields", []):
+                n += 1
+                at = b.atoms(rv["ops"][rv["fields"].index("s")])
+                ctx.check(any(a[0] == "call" and str(a[1]).endswith("::replace") for a in at), rid,
+                          "fmt_links:emitted-text-is-the-cleaned-string#%d" % n, st["span"], b.id,
+                          "a footnote piece is emitted without passing through the newline replacement")
+    ctx.floor(rid, "TaggedString constructions in fmt_links", n, 3)
+
+
+def rule_estimates_only_at_render(ctx, rid):
+    """Size estimates depend on the decorator's prefixes and on min_wrap_width and are cached in the nodes: they are
+    computed only by render_tree_to_string, with the decorator and context of that rendering (never when the tree is
+    built, and not by any other entry point) — a tree built by one configuration may be rendered by another."""
+    F = ctx.facts
+    pre = F.one("precalc_size_estimate")
+    cse = F.one("RenderNode::calc_size_estimate")
+    roots = lambda ids: sorted({(F.bodies[c].root if F.bodies[c].kind == "Closure" else c) for c in ids})  # noqa: E731
+    # references as a function value count as uses
+    refs = set()
+    for b in F.bodies.values():
+        for bb in b.reachable():
+            t = b.term(bb)
+            for o in (t.get("args") or []):
+                k = op_const(o)
+                if k and "fn" in k and (k["fn"].get("resolved") or k["fn"].get("def")) in (pre.id, cse.id):
+                    refs.add(b.id)
+    pc = roots(set(F.callers_of(pre.id)) | {r for r in refs})
+    ctx.check(pc == ["render_tree_to_string"], rid, "estimates:precalc-only-from-render_tree_to_string", pre.span, pre.id,
+              "precalc_size_estimate is used from %s" % pc)
+    cc = roots(F.callers_of(cse.id))
+    ctx.check(set(cc) <= {"RenderNode::calc_size_estimate", "precalc_size_estimate"}, rid, "estimates:calc-only-from-the-estimate-pass", cse.span, cse.id,
+              "calc_size_estimate is called from %s" % cc)
